@@ -34,6 +34,9 @@ RULE = (
     "disagrees with the NPDU length field in both directions, for data TPDUs and for every control TPCI (T_Connect, T_Disconnect, "
     "T_ACK/T_NAK seq 0..15: length 0 with 1..4 surplus octets, length n>0 with n / fewer / more octets), enumerated and generated: "
     "a frame the parser accepts must be reproduced by to_knx() including its length, so these must be rejected. "
+    "History step for every frame of (a) and (b) that parses: the flags of the parsed frame are changed in place (hop count, priority, "
+    "repeat, system broadcast, ack, confirm), then the same octets and a different frame with the same control field are parsed: "
+    "both must show the flags on the wire (frames share no state). "
     "Non-trivial = NPDU length in {14,15,16,253,254,255} or any control flag / hop count / additional info different "
     "from the defaults, or (b) any parsed received frame."
 )
@@ -135,7 +138,7 @@ def is_nontrivial(spec, npdu_len: int) -> bool:
     )
 
 
-def oracle_built(ctx, spec) -> None:
+def _oracle_built_single(ctx, spec) -> None:
     spec = dict(spec)
     if isinstance(spec.get("payload"), list):
         spec["payload"] = tuple(spec["payload"])
@@ -226,6 +229,90 @@ def oracle_built(ctx, spec) -> None:
         ctx.fail(f"C13:roundtrip-neq:{p}", spec, f"{frame!r} -> {raw.hex()} -> {back!r}")
 
 
+FLAG_FIELDS = ("priority", "repeat_on_error", "system_broadcast", "acknowledge_request", "confirm_error", "hop_count", "frame_type", "frame_format")
+
+
+def _wire_flags(d) -> tuple:
+    """Flag values as on the wire (reference decoder), in FLAG_FIELDS order."""
+    return (d["priority"], d["repeat"], d["system_broadcast"], d["ack"], d["confirm_error"], d["hop_count"], 1 if d["standard"] else 0, d["eff"])
+
+
+def _parsed_flags(f) -> tuple:
+    return tuple(int(getattr(f, n)) if n in ("priority", "hop_count", "frame_type", "frame_format") else bool(getattr(f, n)) for n in FLAG_FIELDS)
+
+
+def history_flags_isolation(ctx, raw: bytes, origin: str) -> None:
+    """Frames are independent objects: parse frame 1, change its flags IN PLACE (as a forwarder decrementing the hop
+    count or user code assigning cemi.data.flags.x does), then parse (a) the same octets again and (b) a different
+    frame carrying the same control field: both must show the flags that are on the wire (reference decoder) and
+    re-serialise to them, whatever was done to frame 1."""
+    try:
+        d = L.decode_ldata(raw)
+        f1 = CEMIFrame.from_knx(raw)
+    except Exception:  # noqa: BLE001 - judged by the single-frame oracles
+        return
+    if not isinstance(f1.data, CEMILData) or d["reserved"] or d["length"] > L.MAX_L:
+        return
+    wire = _wire_flags(d)
+    if _parsed_flags(f1.data.flags) != wire:
+        return  # already wrong in isolation: reported by the single-frame oracle
+    ctx.classes["history:flags-isolation"] += 1
+    fl = f1.data.flags
+    fl.hop_count = (fl.hop_count + (1 if fl.hop_count < 7 else -1)) if d["hop_count"] % 2 else (fl.hop_count - 1 if fl.hop_count else 1)
+    fl.priority = CEMIPriority((int(fl.priority) + 1 + d["src"] % 3) % 4)
+    fl.repeat_on_error = not fl.repeat_on_error
+    fl.system_broadcast = not fl.system_broadcast
+    fl.acknowledge_request = not fl.acknowledge_request
+    fl.confirm_error = not fl.confirm_error
+    b = d["base"]
+    # a different frame with the same control field: other addresses, shortest data TPDU (valid for both address types)
+    other = bytes([d["code"], 0]) + raw[b : b + 2] + ((d["src"] + 1) & 0xFFFF).to_bytes(2, "big") + (d["dst"] ^ 0x0100 or 1).to_bytes(2, "big") + b"\x01\x00\x81"
+    for what, octets in (("same-octets-again", raw), ("other-frame-same-control-field", other)):
+        try:
+            f2 = CEMIFrame.from_knx(octets)
+            d2 = L.decode_ldata(octets)
+        except Exception as e:  # noqa: BLE001
+            if what == "same-octets-again":
+                ctx.fail(f"C13:history:second-parse-exc:{exc_site(e)}", {"raw": raw, "origin": origin}, f"second parse of {octets.hex()} raised {type(e).__name__}: {e}")
+            continue
+        got = _parsed_flags(f2.data.flags)
+        want = _wire_flags(d2)
+        shared = f2.data.flags is f1.data.flags
+        if got != want or shared:
+            diff = [n for n, g, w in zip(FLAG_FIELDS, got, want) if g != w]
+            ctx.fail(
+                "C13:received:flags-shared-between-frames",
+                {"raw": raw, "origin": origin},
+                f"{what}: after the flags of a previously parsed frame with control field {raw[b:b+2].hex()} were changed in place, "
+                f"{octets.hex()} parses to flags {f2.data.flags} (differs from the wire in {diff}; same object as frame 1: {shared})",
+            )
+            continue
+        try:
+            again = f2.to_knx()
+        except Exception:  # noqa: BLE001 - APCI re-encode problems: single-frame oracle / C05
+            continue
+        hb = d2["base"]
+        if again[hb : hb + 2] != bytes([octets[hb] & 0x7F | again[hb] & 0x80, octets[hb + 1]]):
+            ctx.fail("C13:received:flags-shared-between-frames", {"raw": raw, "origin": origin}, f"{what}: {octets.hex()} re-serialises to control field {again[hb:hb+2].hex()}")
+
+
+def oracle_built(ctx, spec) -> None:
+    _oracle_built_single(ctx, spec)
+    sp = dict(spec)
+    if isinstance(sp.get("payload"), list):
+        sp["payload"] = tuple(sp["payload"])
+    try:
+        raw = build_frame(sp)[0].to_knx()
+    except Exception:  # noqa: BLE001 - rejections / errors are judged above
+        return
+    history_flags_isolation(ctx, raw, "built")
+
+
+def oracle_received(ctx, raw: bytes) -> None:
+    _oracle_received_single(ctx, raw)
+    history_flags_isolation(ctx, raw, "received")
+
+
 def first_diff_field(raw: bytes, expected: bytes) -> str:
     if len(raw) != len(expected):
         return "length"
@@ -245,7 +332,7 @@ def first_diff_field(raw: bytes, expected: bytes) -> str:
 # ---------------------------------------------------------------------------
 
 
-def oracle_received(ctx, raw: bytes) -> None:
+def _oracle_received_single(ctx, raw: bytes) -> None:
     try:
         frame = CEMIFrame.from_knx(raw)
     except (CouldNotParseCEMI, UnsupportedCEMIMessage):
@@ -449,7 +536,7 @@ def run(ctx) -> None:
     enumerate_length_mismatch(ctx)
     ctx.notes["service_instances"] = len(S.service_instances())
     shards = ctx.n(8, 16)
-    parallel(ctx, _shard_both, [(ctx.n(700, 12000), ctx.n(500, 10000))] * shards)
+    parallel(ctx, _shard_both, [(ctx.n(500, 12000), ctx.n(400, 10000))] * shards)
 
 
 def replay(ctx, case) -> None:
